@@ -18,7 +18,7 @@ compare-exchange loop guarded by `next > limit => OutOfMemory` with no plain fet
 commit gives its amount back; only the reviewed functions write memory_usage. Not decided: exact equality of the counter
 with the live sum (key.capacity() vs key.len() is value-level), the instantaneous bound beyond "admission is a CAS".
 """
-DECIDED = ["reserve -> publish -> commit (+count) on new keys", "growth reserved before / shrink released after replacement",
+DECIDED = ["recovery debits the displaced generation's size and credits the scanned record's size", "reserve -> publish -> commit (+count) on new keys", "growth reserved before / shrink released after replacement",
            "one count and one byte decrement per removal", "recovery accounting", "CAS admission against the limit; rollback on drop"]
 NOT_DECIDED = ["exact equality of memory_usage with the live sum", "instantaneous bound under all interleavings"]
 ASSUMPTIONS = ["MemoryReservation is linear by type (commit consumes self; Drop rolls back)"]
